@@ -56,7 +56,11 @@ RKIND = {
     "S": dict(atoms=[("A", "C1", None)], bonds=[], vs=[], cin=0, cout=0),
     "W": dict(atoms=[("W", "P4", None)], bonds=[], vs=[], cin=0, cout=0),
     "D": dict(atoms=[("B1", "C1", None), ("B2", "SC", 50.0)], bonds=[(0, 1, 0.30)], vs=[], cin=0, cout=1),
-    "V": dict(atoms=[("V1", "SC", None), ("V2", "SC", 45.0), ("VS", "VS", 0.0)], bonds=[(0, 1, 0.30)],
+    # virtual_sitesn site that is also held by a bond (polyply draws no edge for a virtual-site section itself)
+    "V": dict(atoms=[("V1", "SC", None), ("V2", "SC", 45.0), ("VS", "VS", 0.0)], bonds=[(0, 1, 0.30), (0, 2, 0.15)],
+              vs=[(2, (0, 1))], cin=0, cout=1),
+    # the Martini way (DEX / CEL / P3HT of polyply's own library tests): the site occurs in no bond or constraint
+    "U": dict(atoms=[("U1", "SC", None), ("U2", "SC", 45.0), ("US", "VS", 0.0)], bonds=[(0, 1, 0.30)],
               vs=[(2, (0, 1))], cin=0, cout=1),
 }
 
@@ -83,6 +87,7 @@ TYPES = {
     "PA": chain_type("PA", [("RA", "S"), ("RA", "S"), ("RA", "S"), ("RB", "S")]),
     "PD": chain_type("PD", [("RD", "D")] * 3),
     "PV": chain_type("PV", [("RV", "V"), ("RV", "V"), ("RS", "S")]),
+    "PU": chain_type("PU", [("RU", "U"), ("RU", "U"), ("RS", "S")]),
     "C8": chain_type("C8", [("RA", "S")] * 8),
     "BR": branched_type("BR"),
     "R6": ring_type("R6", 6),
@@ -771,7 +776,9 @@ def _eval_world(w, d):
         return {"status": status, "bad": [], "nontrivial": False, "info": info}
     if status == "error":
         key = "gen-coords-error"
-        if w.get("ign") and detail.startswith("KeyError"):
+        if "disconnected parts" in detail and any(k == "U" for mol in mols for (_, k) in mol["res"]):
+            key = "unbonded-virtual-site-refused"
+        elif w.get("ign") and detail.startswith("KeyError"):
             key = "F2-ignore-indexing"
         elif w.get("ign"):
             key = "ignore-error"
@@ -870,8 +877,11 @@ def run_worlds(unit_name, worlds, res):
             seen.add(sig)
             if len(res.samples) < 4 and (len(res.samples) < 2 or res.evaluations % 37 == 0):
                 res.samples.append({"world": describe(w), "cli": cli_line(w), "info": {k: v for k, v in r["info"].items() if k != "status_detail"}})
+        first = {}
         for (key, what, detail) in r["bad"]:
-            by_key.setdefault(key, []).append((w, what, detail))
+            first.setdefault(key, (w, what, detail))
+        for key, item in first.items():        # one entry per world and class of failure
+            by_key.setdefault(key, []).append(item)
     for key, lst in sorted(by_key.items()):
         if len(res.violations) >= 5:
             break
@@ -937,7 +947,7 @@ def run_c03(ctx, res):
                 if sum(counts) <= 6:
                     topologies.append([[t, c] for t, c in zip(order, counts)])
     repeated = [[["PA", 1], ["W", 2], ["PA", 1]], [["W", 1], ["PV", 1], ["W", 2]], [["PD", 1], ["PD", 2]], [["W", 1], ["PA", 1], ["W", 1], ["PA", 1]],
-                [["BR", 1], ["W", 2]], [["R6", 1], ["MX", 1]]]
+                [["BR", 1], ["W", 2]], [["R6", 1], ["MX", 1]], [["PU", 1]], [["W", 2], ["PU", 1]], [["PU", 2], ["PA", 1]]]
     topologies += repeated
     full_on = [[["PA", 2], ["W", 3]], [["W", 2], ["PV", 1], ["PD", 1]], [["PD", 1]]]
     nseeds = 2 if not ctx.thorough else 4
@@ -957,8 +967,8 @@ def run_c03(ctx, res):
             o = opts[(ti * 17 + j * 101) % len(opts)]
             worlds.append(dict(o, unit="c03", molecules=ml, seed=seeds[(ti + j) % nseeds]))
     res.bound = (f"topologies: every ordered choice of 1-3 distinct molecule types from {names} (W: one bead; PA: 4 one-bead residues RA,RA,RA,RB; PD: 3 two-atom "
-                 f"residues, one atom with its mass in [atoms]; PV: 2 three-atom residues with a virtual_sitesn site + 1 bead) x every count vector in {{1,2,3}}^k "
-                 f"with <= 6 molecules ({len(topologies) - len(repeated)} topologies) + {len(repeated)} with a repeated type / branched / ring / mixed-size molecules, each under "
+                 f"residues, one atom with its mass in [atoms]; PV: 2 three-atom residues with a virtual_sitesn site (also bonded) + 1 bead) x every count vector in {{1,2,3}}^k "
+                 f"with <= 6 molecules ({len(topologies) - len(repeated)} topologies) + {len(repeated)} with a repeated type / branched / ring / mixed-size molecules / PU = virtual site that occurs in no bond (Martini style), each under "
                  f"{per_top} option sets taken round-robin from the option product; on {len(full_on)} topologies the COMPLETE product (up to {nopt} sets): "
                  "{-box cubic, -box non-cubic, -dens} x {no structure, -c half (may cut a chain), -mc half, -c all, -c and -mc} x {-b none, sphere restraint, volumes} "
                  "x {-res none / first residue name} x {-grid none / 25 points} x {-start none / by name / by molecule index}; "
@@ -1080,9 +1090,18 @@ def run_c05(ctx, res):
                 for s in seeds:
                     part.append(dict(unit="c05", molecules=ml, coords={"mode": mode, "k": k, "box": [3.6, 3.4, 3.2]}, res=rs, sf=sf, seed=s))
     worlds += part
+    # the first residue chosen with -start (by molecule name, by molecule index)
+    started = []
+    for ml, st in (([["C8", 2]], ["C8-RA#4"]), ([["BR", 1], ["W", 2]], ["BR#0-RA#4"]), ([["MX", 1], ["C8", 1]], ["MX-RV#4", "C8#1-RA#8"])):
+        for box in boxes:
+            for sf in sfs:
+                for s in seeds:
+                    started.append(dict(unit="c05", molecules=ml, box=box, sf=sf, start=st, seed=s))
+    worlds += started
     res.bound = (f"systems {systems} (linear, branched BR, ring R6 grown as a tree, mixed residue sizes MX/PV/PD, solvent) x boxes {boxes} x start grid {{default 0.2, -gs 0.5, "
                  f"user file of 40 points}} x -sf {sfs} x -mf {mfs} (1e300: only the 0.1 nm floor guards) x {nseeds} seeds = {n_free} worlds (complete product); "
-                 f"+ {len(part)} worlds with partially supplied molecules (-c / -mc prefixes, -res on first / inner residues) in a non-cubic box")
+                 f"+ {len(part)} worlds with partially supplied molecules (-c / -mc prefixes, -res on first / inner residues) in a non-cubic box "
+                 f"+ {len(started)} worlds with -start on an inner residue (by molecule name / index) in the three boxes")
     res.rule = ("non-trivial iff distinct, finished, and (>= 1 generated residue lies across a periodic face from the residue it was grown from, or the system has >= 2 molecules); "
                 "positions are the residue positions on the Topology after BuildSystem.run_system, the growth parent is the prev_node of the accepted "
                 "RandomWalk.update_positions call, sizes are read from the engine's interaction matrix")
